@@ -101,6 +101,8 @@ template <class X> struct Runner {
             if (k > 0 && reached && rc == URI_ERROR_MALLOC) {
                 // the URI must still be structurally sane enough to be read and freed
                 ObjView v = read_uri<X>(u); if (!v.malformed.empty()) c->count("malformed_after_failed_inplace_op");
+                // state left over from the failed call: calling again (no failure now) must be memory-safe as well; its result is not judged
+                if (((k + (from ? 1 : 0)) & 3) == 0) { LibScope ls; if (p.call == C_NORMALIZE) (void)(p.dflt ? X::NormalizeSyntaxEx(&u, p.mask) : X::NormalizeSyntaxExMm(&u, p.mask, ctl.mm())); else (void)(p.dflt ? X::MakeOwner(&u) : X::MakeOwnerMm(&u, ctl.mm())); c->count("retried_after_failure"); }
             }
             { LibScope ls; if (p.dflt) X::FreeUriMembers(&u); else X::FreeUriMembersMm(&u, ctl.mm()); }
             verdict(); return true; }
